@@ -122,6 +122,11 @@ func (a *LevLPAgent) Step(s *Sim) {
 				if found {
 					if price, err := ammPool.LpTokenPrice(ctx, s.N0.App.OracleKeeper, s.N0.App.AccountedPoolKeeper); err == nil {
 						sl = price.Mul(decFromFloat(0.7 + r.Float64()*0.35))
+						if r.IntN(2) == 0 {
+							// a stop-loss a hair below the market: any mis-measurement of the LP price
+							// (a stale pool, a wrong basis) closes a position that should stay open
+							sl = price.Mul(decFromFloat(0.985 + r.Float64()*0.0149))
+						}
 					}
 				}
 			}
